@@ -4,6 +4,8 @@
   (`opsOf` is defined in Lemmas/WriterLemmas; the spec encoder `encode` in Spec/Value.)
 -/
 import Binson.Lemmas.WriterLemmas
+import Binson.Lemmas.VerifyValid
+import Binson.Model.Transcribe
 import Binson.Props.C04
 namespace Binson
 
@@ -53,5 +55,30 @@ example :
     let v := Value.obj (.cons [0x61] (.arr (.cons (.int 1) (.cons (.int (-300)) .nil))) .nil)
     let m0 : Array UInt8 := Array.replicate 14 7
     ((Writer.init m0 m0.size).1.run (opsOf v)).mem.toList = encode v ++ [7, 7] := by decide
+
+/-- C05, second half: the canonical encoding of a well-formed object document is accepted by
+    `binson_parser_verify` (within the depth limit), from any allocated parser object -/
+theorem written_verifies (g : Parser) (ha : Alloc g) (hmd : g.maxDepth ≤ 255) (v : Value)
+    (hwf : wfDoc .object g.maxDepth v = true) (hsz : (encode v).length < 2 ^ 63) :
+    (init g (encode v).toArray 1).2 = true ∧ (verify (init g (encode v).toArray 1).1).2.1 = true :=
+  let h := verify_wellformed g ha hmd .object v hwf hsz; ⟨h.1, h.2.2.1⟩
+
+/-- ... and by `binson_writer_verify` (a depth-10 parser over the bytes written so far) -/
+theorem writer_verify_ok (v : Value) (hwf : wfDoc .object 10 v = true) (m0 : Array UInt8)
+    (hlen : (encode v).length ≤ m0.size) (hsz : m0.size < 2 ^ 63) :
+    writerVerify ((Writer.init m0 m0.size).1.run (opsOf v)) = true := by
+  have hwv : wfValue v = true := by
+    unfold wfDoc at hwf; simp only [Bool.and_eq_true] at hwf; exact hwf.1.1
+  obtain ⟨_, hu, ht⟩ := write_value_encode v hwv m0 hlen hsz
+  unfold writerVerify
+  have hb : ((Writer.init m0 m0.size).1.run (opsOf v)).mem.extract 0 ((Writer.init m0 m0.size).1.run (opsOf v)).used = (encode v).toArray := by
+    apply Array.ext'
+    rw [Array.toList_extract, hu]
+    simpa using ht
+  simp only [hb]
+  have h := verify_wellformed (garbageParser 10) ⟨rfl, by decide, rfl, rfl⟩ (by decide) .object v hwf (by omega)
+  have h1 : (init (garbageParser 10) (encode v).toArray 1).2 = true := h.1
+  have h2 : (verify (init (garbageParser 10) (encode v).toArray 1).1).2.1 = true := h.2.2.1
+  simp [h1, h2]
 
 end Binson
